@@ -7,8 +7,9 @@
 
    Readings chosen where the text leaves room (each is repeated in Props/C10.v):
    * path length: the number of CA certificates strictly between the leaf and the issuer must not
-     exceed the issuer's pathLenConstraint (the self-issued exemption of RFC 5280 6.1.4(l) is not
-     part of the reading);
+     exceed the issuer's pathLenConstraint.  [valid_chain] counts every intermediate; [valid_chain_rfc]
+     is the reading of RFC 5280 6.1.4(l), which does not count self-issued intermediates.  Every
+     [valid_chain] is a [valid_chain_rfc]; they coincide on chains without self-issued intermediates;
    * DNS name constraints: when a host name is requested, it must lie in a permitted DNS subtree of
      every ISSUER that carries permitted subtrees (the text does not say which names are
      constrained; the reading takes the name the verification is about);
@@ -101,6 +102,19 @@ Section Spec.
     | p :: ups' => issuer_ok child n p /\ issuers_ok p (S n) ups'
     end.
 
+  (* The other reading of "path-length constraints respected": RFC 5280 4.2.1.9 defines
+     pathLenConstraint as the maximum number of NON-SELF-ISSUED intermediate certificates that may
+     follow (6.1.4 (l): the counter is not decremented for a self-issued certificate, i.e. one whose
+     issuer and subject names are equal).  [n] counts only those. *)
+  Definition self_issued_dec (c : cert) : {c_issuer c = c_subject c} + {c_issuer c <> c_subject c} :=
+    list_eq_dec N.eq_dec (c_issuer c) (c_subject c).
+
+  Fixpoint issuers_ok_rfc (child : cert) (n : nat) (ups : list cert) : Prop :=
+    match ups with
+    | [] => True
+    | p :: ups' => issuer_ok child n p /\ issuers_ok_rfc p (if self_issued_dec p then n else S n) ups'
+    end.
+
   (* host name *)
   Definition presented_names (c : cert) : list (list byte) :=
     match c_dnsnames c with [] => [c_cn c] | l => l end.
@@ -147,6 +161,18 @@ Section Spec.
       NoDup (map c_id chain) /\
       from_pools leaf ups.
 
+  Definition valid_chain_rfc (leaf : cert) (chain : list cert) : Prop :=
+    exists ups,
+      chain = leaf :: ups /\
+      leaf_ok leaf /\
+      issuers_ok_rfc leaf 0 ups /\
+      NoDup (map c_id chain) /\
+      from_pools leaf ups.
+
+  (* no intermediate of the chain is self-issued (the last certificate is the root) *)
+  Definition no_self_issued_intermediate (ups : list cert) : Prop :=
+    forall c, In c (removelast ups) -> c_issuer c <> c_subject c.
+
   (* Conditions the property text is silent about, which a fail-closed implementation may add:
      - the requested usage must be allowed by EVERY certificate of the chain (nested EKU);
      - the DNS constraints of a certificate are applied to the raw DNSName option, also when it
@@ -158,11 +184,19 @@ Section Spec.
   Definition strict_extras (chain : list cert) : Prop :=
     eku_ok chain /\ forall c, In c chain -> raw_dns_constraints_ok c.
 
-  (* well-formed key identifiers on a chain: an authority key identifier, when present, names the
-     subject key identifier of the issuer *)
+  (* key identifiers on a chain, as far as a search by key identifier needs them: for every link, the
+     child names no authority key identifier, or the issuer carries exactly that identifier as its
+     subject key identifier, or NO certificate of the issuer's pool carries it (then a search falls
+     back to the issuer name).  The issuer's pool is the roots pool for the last link, the
+     intermediates pool otherwise.  RFC 5280 4.2.1.1: the identifier, when present, identifies the
+     issuer's key - the first two alternatives. *)
+  Definition keyid_link_ok (pool : list cert) (child p : cert) : Prop :=
+    c_aki child = [] \/ c_ski p = c_aki child \/ (forall q, In q pool -> c_ski q <> c_aki child).
+
   Fixpoint keyids_wf (child : cert) (ups : list cert) : Prop :=
     match ups with
     | [] => True
-    | p :: ups' => (c_aki child = [] \/ c_ski p = c_aki child) /\ keyids_wf p ups'
+    | p :: ups' =>
+      keyid_link_ok (match ups' with [] => roots | _ :: _ => inters end) child p /\ keyids_wf p ups'
     end.
 End Spec.
